@@ -239,7 +239,7 @@ module_stmt :
 belongs_to_def :
     kywd_belongs_to token_string {
         l := yylex.(*lexer)
-        l.stack.push(l.builder.BelongsTo(l.stack.peek(), $2))
+        l.stack.push(l.builder.BelongsTo(l.stack.peek(), tokenString($2)))
         if chkErr(yylex, l.builder.LastErr) {
             goto ret1
         }
@@ -349,7 +349,7 @@ include_stmt :
 revision_date_stmt :
     kywd_revision_date token_string token_semi {
         l := yylex.(*lexer)
-        l.builder.SetRevisionDate(l.stack.peek(), $2)
+        l.builder.SetRevisionDate(l.stack.peek(), tokenString($2))
     }
 
 optional_body_stmts :
@@ -1481,7 +1481,7 @@ enum_stmt :
 enum_def : 
     kywd_enum token_string {
         l := yylex.(*lexer)
-        l.stack.push(l.builder.Enum(l.stack.peek(), trimQuotes($2)))
+        l.stack.push(l.builder.Enum(l.stack.peek(), tokenString($2)))
         if chkErr(yylex, l.builder.LastErr) {
             goto ret1
         }
@@ -1555,7 +1555,7 @@ yang_ver_stmt :
 units_stmt :
     kywd_units token_string statement_end {        
         l := yylex.(*lexer)        
-        l.builder.Units(l.stack.peek(), $2)
+        l.builder.Units(l.stack.peek(), tokenString($2))
         if chkErr2(l, "units", $3) {
             goto ret1
         }
@@ -1587,7 +1587,7 @@ unknown_stmt :
 yin_ext_def :
     token_unknown token_string token_curly_open {
         l := yylex.(*lexer)
-        $$ = l.builder.Extension($1, $2)
+        $$ = l.builder.Extension($1, tokenString($2))
         if chkErr(yylex, l.builder.LastErr) {
             goto ret1
         }
